@@ -256,6 +256,10 @@ def registry_states():
         for pr in ('none', 'ok', 'shutdown', 'no_manager'):
             for need in ('thread', 'process', 'both', 'async_only'):
                 out.append({'thread': th, 'process': pr, 'need': need})
+    # histories on one chart: a first run with both pools alive, then a pool is shut down and the SAME chart runs again
+    for need in ('thread', 'process', 'both', 'async_only'):
+        for shut in ('thread', 'process'):
+            out.append({'thread': 'ok', 'process': 'ok', 'need': need, 'then_shutdown': shut})
     return out
 
 
@@ -275,6 +279,10 @@ def run_state(stt):
     need_t = stt['need'] in ('thread', 'both')
     need_p = stt['need'] in ('process', 'both')
     ok = (not need_t or stt['thread'] == 'ok') and (not need_p or stt['process'] == 'ok')
+    if stt.get('then_shutdown'):
+        if r.get('first') != 'value':
+            fs.append(F(['C17'], 'run_failed_with_pools_available', state=stt, got=r))
+        ok = not ((stt['then_shutdown'] == 'thread' and need_t) or (stt['then_shutdown'] == 'process' and need_p))
     if ok:
         if r['outcome'] != 'value':
             fs.append(F(['C17'], 'run_failed_with_pools_available', state=stt, got=r))
@@ -329,8 +337,21 @@ def state_main(stt):
             pex.shutdown()
     dag = build_dag(input_node=mod.N0, output_node=mod.N3)
     chart = PipelineChart('rv', dag)
-    t0 = time.time()
     out = {'outcome': None, 'err': None}
+    if stt.get('then_shutdown'):
+        try:
+            res1 = asyncio.run(asyncio.wait_for(chart.run(pipeline_id='r0', input_kwargs={'x': ('IN', 'r0', 0)}), 60))
+            out['first'] = 'error' if res1.error is not None else 'value'
+        except BaseException as e:  # noqa: BLE001
+            out['first'] = 'raised:' + repr(e)[:100]
+        (ex if stt['then_shutdown'] == 'thread' else pex).shutdown()
+        os.close(fd)
+        os.unlink(tf.name)
+        tf = tempfile.NamedTemporaryFile(prefix='rvstate', suffix='.log', dir=os.path.join(VERIF, '.work'), delete=False)
+        tf.close()
+        fd = os.open(tf.name, os.O_WRONLY | os.O_APPEND)
+        rt.REAL['fd'] = fd
+    t0 = time.time()
     try:
         res = asyncio.run(asyncio.wait_for(chart.run(pipeline_id='r0', input_kwargs={'x': ('IN', 'r0', 0)}), 60))
         out['outcome'] = 'error' if res.error is not None else 'value'
